@@ -40,6 +40,7 @@ class Report:
         self.repo = repo
         self.t0 = time.time()
         self.obs: List[Obligation] = []
+        self.forced_incomplete: list = []
         self.assumptions: List[str] = []
         self.rules: Dict[str, str] = {}
         self.notes: List[str] = []
@@ -64,6 +65,11 @@ class Report:
 
     def undecided(self, rule, key, where='', why='', facts=None):
         self.add(rule, key, UNDECIDED, where, facts, why)
+
+    def incomplete(self, rule, key, where='', why=''):
+        """an instance that must be decided for the verdict to mean anything (e.g. an un-audited new implementation): reported as undecided and the run ends as ANALYSIS-INCOMPLETE"""
+        self.add(rule, key, UNDECIDED, where, None, why)
+        self.forced_incomplete.append((rule, key, why))
 
     def excluded(self, rule, key, where='', why=''):
         self.add(rule, key, EXCLUDED, where, None, why)
@@ -96,7 +102,7 @@ class Report:
         baseline = self._load_baseline()
         violations = []
         known_hits = []
-        incomplete = []
+        incomplete = list(getattr(self, 'forced_incomplete', []))
         decided_keys: Dict[str, set] = {}
         for o in self.obs:
             if o.status in (DISCHARGED, VIOLATED):
